@@ -153,7 +153,7 @@ fn hex(b: &[u8]) -> String {
     s
 }
 fn hexv(b: &[u8]) -> Value {
-    Value::String(hex(b))
+    json!({"raw": format!("(hx \"{}\"%string)", hex(b))})
 }
 fn opt<T>(o: Option<T>, f: impl Fn(T) -> Value) -> Value {
     match o {
@@ -229,21 +229,14 @@ impl Out {
     fn is_fail(&self) -> bool {
         matches!(self, Out::Err(_) | Out::Panic(_))
     }
-    fn term(&self) -> Value {
+    fn term(&self, sealed: &[Sealed]) -> Value {
         match self {
             Out::Err(_) | Out::Panic(_) => ctor("OErr", vec![]),
             Out::Bytes { data, size, etag, lm } => ctor(
                 "OBytes",
-                vec![
-                    Value::Array(data.iter().map(|d| hexv(d)).collect()),
-                    json!(size),
-                    opt(etag.as_deref(), |s| hexv(s.as_bytes())),
-                    json!(lm),
-                ],
+                vec![Value::Array(data.iter().map(|d| hexv(d)).collect()), json!(size), etag_ref(sealed, etag.as_deref()), json!(lm)],
             ),
-            Out::Meta { size, etag, lm } => {
-                ctor("OMeta", vec![json!(size), opt(etag.as_deref(), |s| hexv(s.as_bytes())), json!(lm)])
-            }
+            Out::Meta { size, etag, lm } => ctor("OMeta", vec![json!(size), etag_ref(sealed, etag.as_deref()), json!(lm)]),
         }
     }
     fn short(&self) -> Value {
@@ -255,6 +248,34 @@ impl Out {
             }
             Out::Meta { size, etag, lm } => json!({"ok_meta": {"size": size, "etag": etag, "lm": lm}}),
         }
+    }
+}
+
+/// equality of two successful outcomes: bytes, size and ETag for data reads; size, ETag and
+/// last_modified for metadata reads
+fn same_outcome(a: &Out, b: &Out) -> bool {
+    match (a, b) {
+        (Out::Bytes { data: d1, size: s1, etag: e1, .. }, Out::Bytes { data: d2, size: s2, etag: e2, .. }) => d1 == d2 && s1 == s2 && e1 == e2,
+        _ => a == b,
+    }
+}
+
+/// keep the first few failing inputs of every class, count all
+struct Fails {
+    list: Vec<Value>,
+    counts: BTreeMap<String, u64>,
+}
+impl Fails {
+    fn push(&mut self, v: Value) {
+        let class = v["class"].as_str().unwrap_or("?").to_string();
+        let c = self.counts.entry(class).or_default();
+        *c += 1;
+        if *c <= 4 {
+            self.list.push(v);
+        }
+    }
+    fn len(&self) -> usize {
+        self.counts.values().sum::<u64>() as usize
     }
 }
 
@@ -324,6 +345,44 @@ async fn do_read(store: &Store, loc: &Path, op: &Op) -> Out {
 }
 
 /// listing outcome: Err, or (location -> (size, etag, lm))
+fn etag_ref(sealed: &[Sealed], e: Option<&str>) -> Value {
+    match e {
+        None => ctor("ENone", vec![]),
+        Some(x) => match sealed.iter().position(|s| s.doc.e_tag.as_deref() == Some(x)) {
+            Some(i) => ctor("ERef", vec![json!(i)]),
+            None => ctor("ELit", vec![hexv(x.as_bytes())]),
+        },
+    }
+}
+
+/// the tampered document relative to an honest one: (index, edits), payload by reference when possible
+fn doc_term(sealed: &[Sealed], key: &str, doc: &MetaDoc, payload: Option<&Vec<u8>>) -> Value {
+    let idx = sealed.iter().rposition(|s| s.loc == key).unwrap_or(0);
+    let h = &sealed[idx].doc;
+    let ob = |o: &Option<String>| opt(o.as_deref(), |s| hexv(s.as_bytes()));
+    let mut ed = Vec::new();
+    if doc.size != h.size { ed.push(ctor("ESize", vec![json!(doc.size)])); }
+    if doc.e_tag != h.e_tag { ed.push(ctor("EEtag", vec![ob(&doc.e_tag)])); }
+    if doc.original_tag != h.original_tag { ed.push(ctor("EOtag", vec![ob(&doc.original_tag)])); }
+    if doc.original_version != h.original_version { ed.push(ctor("EOver", vec![ob(&doc.original_version)])); }
+    if doc.aes_nonce != h.aes_nonce { ed.push(ctor("ENonce", vec![hexv(doc.aes_nonce.as_slice())])); }
+    if doc.aes_tags != h.aes_tags { ed.push(ctor("ETags", vec![Value::Array(doc.aes_tags.iter().map(|t| hexv(t.as_slice())).collect())])); }
+    if doc.chunk_size != h.chunk_size { ed.push(ctor("ECs", vec![opt(doc.chunk_size, |c| json!(c))])); }
+    if doc.chunk_aad_version != h.chunk_aad_version { ed.push(ctor("EAv", vec![opt(doc.chunk_aad_version, |c| json!(c))])); }
+    if doc.auth_nonce != h.auth_nonce { ed.push(ctor("EAn", vec![opt(doc.auth_nonce.as_ref(), |n| hexv(n.as_slice()))])); }
+    if doc.auth_tag != h.auth_tag { ed.push(ctor("EAt", vec![opt(doc.auth_tag.as_ref(), |n| hexv(n.as_slice()))])); }
+    if doc.generation != h.generation { ed.push(ctor("EGen", vec![ob(&doc.generation)])); }
+    if doc.committed_at_ms != h.committed_at_ms { ed.push(ctor("EMs", vec![opt(doc.committed_at_ms, |c| json!(c))])); }
+    let pl = match payload {
+        None => ctor("PNone", vec![]),
+        Some(b) => match sealed.iter().position(|s| &s.ct == b) {
+            Some(i) => ctor("PRef", vec![json!(i)]),
+            None => ctor("PLit", vec![hexv(b)]),
+        },
+    };
+    ctor("TDoc", vec![json!(idx), Value::Array(ed), pl])
+}
+
 type Listing = Result<BTreeMap<String, (u64, Option<String>, i64)>, String>;
 async fn do_list(store: &Store, variant: u8) -> Listing {
     let fut = async {
@@ -331,13 +390,13 @@ async fn do_list(store: &Store, variant: u8) -> Listing {
             0 => store.list(None).try_collect().await.map_err(|e| err_kind(&e))?,
             1 => store.list_with_offset(None, &Path::from("")).try_collect().await.map_err(|e| err_kind(&e))?,
             _ => {
-                // delimiter listing of the root and of every common prefix, one level
+                // delimiter listing of the root and, recursively, of every common prefix
                 let mut out = Vec::new();
-                let r = store.list_with_delimiter(None).await.map_err(|e| err_kind(&e))?;
-                out.extend(r.objects);
-                for p in r.common_prefixes {
-                    let r2 = store.list_with_delimiter(Some(&p)).await.map_err(|e| err_kind(&e))?;
-                    out.extend(r2.objects);
+                let mut todo: Vec<Option<Path>> = vec![None];
+                while let Some(p) = todo.pop() {
+                    let r = store.list_with_delimiter(p.as_ref()).await.map_err(|e| err_kind(&e))?;
+                    out.extend(r.objects);
+                    todo.extend(r.common_prefixes.into_iter().map(Some));
                 }
                 out
             }
@@ -405,7 +464,7 @@ async fn build_scenario(id: usize, cs: u64, rng: &mut Rng, rich: bool) -> Scenar
     let mut objs: Vec<HObj> = Vec::new();
     let mut sealed: Vec<Sealed> = Vec::new();
     let mut ever: BTreeMap<(String, Vec<u8>), ()> = BTreeMap::new();
-    let mut fresh = |n: usize, rng: &mut Rng| -> Vec<u8> { (0..n).map(|_| rng.below(256) as u8).collect() };
+    let fresh = |n: usize, rng: &mut Rng| -> Vec<u8> { (0..n).map(|_| rng.below(256) as u8).collect() };
 
     // helper run after every honest operation: record inner objects + sealed docs
     async fn observe(base: &InMemory, ever: &mut BTreeMap<(String, Vec<u8>), ()>, sealed: &mut Vec<Sealed>, cur: &[HObj]) {
@@ -730,6 +789,24 @@ fn tampers(sc: &Scenario, cur: &BTreeMap<String, Vec<u8>>, thorough: bool, rng: 
                 }
             }
         }
+        // seal stripped AND a field changed (only the downgrade rule stands between this and wrong bytes)
+        for keep_av in [true, false] {
+            let mut base = d.clone();
+            base.auth_nonce = None;
+            base.auth_tag = None;
+            if !keep_av { base.chunk_aad_version = None; }
+            let tag = if keep_av { "strip an+at" } else { "strip an+at+av" };
+            if d.size > 0 { let mut nd = base.clone(); nd.size = d.size - 1; edit("strip+field", &format!("{tag}, size-1"), nd, vec![]); }
+            if d.aes_tags.len() > 1 {
+                let mut nd = base.clone(); nd.size = sc.cs; nd.aes_tags.truncate(1);
+                edit("strip+field", &format!("{tag}, keep first chunk only"), nd, vec![]);
+                let mut nd = base.clone(); nd.aes_nonce = ByteArray::new(my_nonce(&d.aes_nonce, 1)); nd.aes_tags.remove(0); nd.size = d.size - sc.cs;
+                let ct = cur.get(&pp).cloned().unwrap_or_default();
+                edit("strip+field", &format!("{tag}, nonce+1, first tag and first chunk dropped"), nd, vec![(pp.clone(), Some(ct[cs.min(ct.len())..].to_vec()))]);
+            }
+            let mut nd = base.clone(); nd.e_tag = Some("forged".into()); edit("strip+field", &format!("{tag}, e_tag"), nd, vec![]);
+            let mut nd = base.clone(); nd.committed_at_ms = Some(1); edit("strip+field", &format!("{tag}, committed_at"), nd, vec![]);
+        }
         // field edits
         let mut nd = d.clone(); nd.size = d.size + 1; edit("field", "size+1", nd, vec![]);
         if d.size > 0 { let mut nd = d.clone(); nd.size = d.size - 1; edit("field", "size-1", nd, vec![]); }
@@ -794,6 +871,18 @@ fn tampers(sc: &Scenario, cur: &BTreeMap<String, Vec<u8>>, thorough: bool, rng: 
     out
 }
 
+/// does meta/<key> of this backend decode as an unauthenticated (legacy) document?
+async fn legacy_doc(inner: &InMemory, key: &str) -> bool {
+    match inner.get(&Path::from(format!("meta/{key}").as_str())).await {
+        Ok(r) => match r.bytes().await {
+            // exactly the documents the downgrade rule lets through: no seal, no chunk-AAD version, no generation
+            Ok(b) => decode_doc(&b).map(|d| d.auth_nonce.is_none() && d.auth_tag.is_none() && d.chunk_aad_version.is_none() && d.generation.is_none()).unwrap_or(false),
+            Err(_) => false,
+        },
+        Err(_) => false,
+    }
+}
+
 async fn apply(base: &InMemory, t: &Tamper) -> Arc<InMemory> {
     let f = Arc::new(base.fork());
     for (p, e) in &t.edits {
@@ -814,7 +903,7 @@ fn main() {
     let args: Vec<String> = std::env::args().collect();
     let out_path = arg_value(&args, "--out").expect("--out");
     let thorough = std::env::var("VERIF_TIER").map(|t| t == "thorough").unwrap_or(false);
-    let model_every: u64 = arg_value(&args, "--model-every").and_then(|s| s.parse().ok()).unwrap_or(97);
+    let model_every: u64 = arg_value(&args, "--model-every").and_then(|s| s.parse().ok()).unwrap_or(997);
     let chunk_sizes: Vec<u64> = arg_value(&args, "--chunk-sizes").map(|s| s.split(',').filter_map(|x| x.parse().ok()).collect()).unwrap_or(vec![4]);
     let rt = tokio::runtime::Builder::new_current_thread().enable_all().build().unwrap();
     std::panic::set_hook(Box::new(|_| {}));
@@ -824,7 +913,7 @@ fn main() {
 async fn run(out_path: String, thorough: bool, model_every: u64, chunk_sizes: Vec<u64>) {
     let mut rng = Rng::from_env();
     let mut w = std::io::BufWriter::new(std::fs::File::create(&out_path).unwrap());
-    let mut failures: Vec<Value> = Vec::new();
+    let mut failures = Fails { list: Vec::new(), counts: BTreeMap::new() };
     let mut evaluations = 0u64;
     let mut by_class: BTreeMap<String, u64> = BTreeMap::new();
     let mut outcome_counts: BTreeMap<String, u64> = BTreeMap::new();
@@ -837,6 +926,9 @@ async fn run(out_path: String, thorough: bool, model_every: u64, chunk_sizes: Ve
     let mut seal_checks = 0u64;
     let mut model_cases = 0u64;
     let mut limits: Vec<Value> = Vec::new();
+    let mut replays = 0u64;
+    let mut strata: BTreeMap<(&'static str, &'static str, &'static str, bool), u64> = BTreeMap::new();
+    let per_stratum: u64 = arg_value(&std::env::args().collect::<Vec<_>>(), "--per-stratum").and_then(|s| s.parse().ok()).unwrap_or(if thorough { 24 } else { 4 });
     let c = cipher();
 
     for (sid, cs) in chunk_sizes.iter().enumerate() {
@@ -846,6 +938,7 @@ async fn run(out_path: String, thorough: bool, model_every: u64, chunk_sizes: Ve
         // (a) independent AES-GCM: every sealed document and every chunk verifies under the
         //     harness's own transcription of AAD and nonce derivation
         let mut honest_terms = Vec::new();
+        let mut aad_rows: Vec<Value> = Vec::new();
         for s in &sc.sealed {
             let aad = my_meta_aad(&s.loc, &s.doc);
             let (Some(an), Some(at)) = (s.doc.auth_nonce.as_ref(), s.doc.auth_tag.as_ref()) else {
@@ -872,9 +965,14 @@ async fn run(out_path: String, thorough: bool, model_every: u64, chunk_sizes: Ve
             if s.doc.aes_tags.len() as u64 != (s.pt.len() as u64).div_ceil(csz) || s.doc.size != s.pt.len() as u64 {
                 failures.push(json!({"class": "chunk-transcription", "what": format!("tag count/size of {} inconsistent", s.loc)}));
             }
-            honest_terms.push(tup(vec![hexv(s.loc.as_bytes()), meta_term(&s.doc), hexv(&s.pt), hexv(&s.ct), hexv(&aad)]));
+            let ht = tup(vec![hexv(s.loc.as_bytes()), meta_term(&s.doc), hexv(&s.pt), hexv(&s.ct)]);
+            aad_rows.push(json!({"kind": "aad", "case": tup(vec![ht.clone(), hexv(&aad)])}));
+            honest_terms.push(ht);
         }
         writeln!(w, "{}", json!({"kind": "honest", "scenario": sc.id, "term": Value::Array(honest_terms)})).unwrap();
+        for r in &aad_rows {
+            writeln!(w, "{}", r).unwrap();
+        }
         // (b) nonce set: (nonce -> set of (aad, tag)) must be a function
         let mut nonces: BTreeMap<[u8; 12], BTreeSet<(Vec<u8>, [u8; 16])>> = BTreeMap::new();
         for s in &sc.sealed {
@@ -980,7 +1078,11 @@ async fn run(out_path: String, thorough: bool, model_every: u64, chunk_sizes: Ve
                         if l.len() != sc.objs.len() {
                             failures.push(json!({"class": "honest-read", "what": format!("untampered listing variant {variant} has {} entries, expected {}", l.len(), sc.objs.len())}));
                         }
-                        honest_list = l;
+                        if variant == 0 {
+                            honest_list = l;
+                        } else if l != honest_list {
+                            failures.push(json!({"class": "honest-read", "what": format!("untampered listing variants disagree ({variant})")}));
+                        }
                     }
                     Err(e) => failures.push(json!({"class": "honest-read", "what": format!("untampered listing failed: {e}")})),
                 }
@@ -1026,29 +1128,32 @@ async fn run(out_path: String, thorough: bool, model_every: u64, chunk_sizes: Ve
                             "panic"
                         } else if got.is_fail() {
                             "err"
-                        } else if &got == want {
+                        } else if same_outcome(&got, want) {
                             "ok-original"
                         } else {
                             "DIFFERENT"
                         };
                         *outcome_counts.entry(format!("{}:{}", t.class, class)).or_default() += 1;
                         if class == "DIFFERENT" {
-                            if failures.len() < 40 {
-                                failures.push(json!({
-                                    "class": "wrong-bytes", "what": format!("{} ; read {} of {} (strict={strict}) returned something other than the original or an error", t.desc, op.name(), key),
-                                    "tamper_class": t.class, "chunk_size": sc.cs, "key": key, "op": op.name(), "strict": strict,
-                                    "expected": want.short(), "got": got.short(),
-                                    "edits": t.edits.iter().map(|(p, b)| json!({"path": p, "bytes": b.as_ref().map(|b| hex(b))})).collect::<Vec<_>>(),
-                                    "plaintext": sc.objs.iter().find(|o| &o.loc == key).map(|o| hex(&o.pt)),
-                                }));
-                            } else {
-                                failures.push(json!({"class": "wrong-bytes", "what": "further instance"}));
-                                failures.truncate(60);
-                            }
+                            // compatibility mode accepts unauthenticated ("legacy") documents by design; a
+                            // tamper that leaves such a document is reported under its own class
+                            // (a legacy document can never yield non-empty bytes: no honest seal uses the empty AAD)
+                            let nonempty = matches!(&got, Out::Bytes { data, .. } if data.iter().any(|d| !d.is_empty()));
+                            let fclass = if !strict && !nonempty && legacy_doc(&tampered, key).await { "compat-legacy-downgrade" } else { "wrong-bytes" };
+                            failures.push(json!({
+                                "class": fclass, "what": format!("{} ; read {} of {} (strict={strict}) returned something other than the original or an error", t.desc, op.name(), key),
+                                "tamper_class": t.class, "chunk_size": sc.cs, "key": key, "op": op.name(), "strict": strict,
+                                "expected": want.short(), "got": got.short(),
+                                "edits": t.edits.iter().map(|(p, b)| json!({"path": p, "bytes": b.as_ref().map(|b| hex(b))})).collect::<Vec<_>>(),
+                                "plaintext": sc.objs.iter().find(|o| &o.loc == key).map(|o| hex(&o.pt)),
+                            }));
                         }
                         // model case (sampled; always for the identity tamper and for non-error outcomes of real tampers)
-                        let interesting = t.class == "identity" || (class == "ok-original" && counter % 5 == 0) || class == "DIFFERENT";
-                        if (interesting || counter % model_every == 0) && t.keys.len() == 1 || (t.class == "identity" && !strict) {
+                        let opkind = match op { Op::Get(None) => "get", Op::Get(Some(_)) => "range", Op::Ranges(_) => "ranges", Op::Head => "head" };
+                        let seen = strata.entry((t.class, class, opkind, strict)).or_insert(0u64);
+                        *seen += 1;
+                        let pick = *seen <= per_stratum || *seen % model_every == 0 || class == "DIFFERENT";
+                        if pick && t.keys.len() == 1 || (t.class == "identity" && !strict) {
                             let d = match &tdump { Some(d) => d.clone(), None => dump(&tampered).await };
                             let tm = match d.get(&format!("meta/{key}")) {
                                 None => ctor("TAbsent", vec![]),
@@ -1056,12 +1161,12 @@ async fn run(out_path: String, thorough: bool, model_every: u64, chunk_sizes: Ve
                                     None => ctor("TUndecodable", vec![]),
                                     Some(doc) => {
                                         let pl = d.get(&payload_path_of(key, &doc));
-                                        ctor("TDoc", vec![meta_term(&doc), opt(pl, |b| hexv(b))])
+                                        doc_term(&sc.sealed, key, &doc, pl)
                                     }
                                 },
                             };
                             let case = tup(vec![json!(strict), json!({"raw": format!("honest_{}", sc.id)}), json!(sc.cs), hexv(key.as_bytes()), tm, op.term()]);
-                            writeln!(w, "{}", json!({"kind": "model", "case": case, "obs": got.term(), "tamper": t.desc, "tclass": t.class, "oclass": class})).unwrap();
+                            writeln!(w, "{}", json!({"kind": "model", "case": case, "obs": got.term(&sc.sealed), "tamper": t.desc, "tclass": t.class, "oclass": class})).unwrap();
                             model_cases += 1;
                         }
                     }
@@ -1079,28 +1184,38 @@ async fn run(out_path: String, thorough: bool, model_every: u64, chunk_sizes: Ve
                             *outcome_counts.entry(format!("{}:list-ok", t.class)).or_default() += 1;
                             for (loc, e) in m {
                                 if honest_list.get(loc) != Some(e) {
-                                    failures.push(json!({"class": "wrong-listing", "what": format!("{} ; listing variant {variant} (strict={strict}) reports {loc} as {:?}, honest entry is {:?}", t.desc, e, honest_list.get(loc)),
+                                    // a superseded honest document of the same key (replay of an older
+                                    // version) is outside what an AEAD can detect: counted, not judged
+                                    if sc.sealed.iter().any(|s| &s.loc == loc && (s.doc.size, s.doc.e_tag.clone(), s.doc.committed_at_ms.unwrap_or(0) as i64) == *e) {
+                                        replays += 1;
+                                        continue;
+                                    }
+                                    let fclass = if !strict && legacy_doc(&tampered, loc).await { "compat-legacy-downgrade" } else { "wrong-listing" };
+                                    failures.push(json!({"class": fclass, "what": format!("{} ; listing variant {variant} (strict={strict}) reports {loc} as {:?}, honest entry is {:?}", t.desc, e, honest_list.get(loc)),
+                                        "tamper_class": t.class, "strict": strict,
                                         "edits": t.edits.iter().map(|(p, b)| json!({"path": p, "bytes": b.as_ref().map(|b| hex(b))})).collect::<Vec<_>>()}));
-                                    failures.truncate(60);
                                 }
                             }
                         }
                     }
-                    if variant == 0 && t.keys.len() == 1 && (counter % 3 == 0 || t.class == "strip") {
+                    let lclass = match &l { Err(_) => "err", Ok(m) => if t.keys.len() == 1 && m.contains_key(&t.keys[0]) { "ok" } else { "skipped" } };
+                    let seen = strata.entry((t.class, lclass, "list", strict)).or_insert(0u64);
+                    *seen += 1;
+                    if variant == 0 && t.keys.len() == 1 && (*seen <= per_stratum || *seen % model_every == 0) {
                         let key = &t.keys[0];
                         let d = dump(&tampered).await;
                         let tm = match d.get(&format!("meta/{key}")) {
                             None => ctor("TAbsent", vec![]),
                             Some(b) => match decode_doc(b) {
                                 None => ctor("TUndecodable", vec![]),
-                                Some(doc) => ctor("TDoc", vec![meta_term(&doc), Value::Null]),
+                                Some(doc) => doc_term(&sc.sealed, key, &doc, None),
                             },
                         };
                         let obs = match &l {
                             Err(_) => ctor("OErr", vec![]),
                             Ok(m) => match m.get(key) {
                                 None => ctor("OSkipped", vec![]),
-                                Some((s, e, lm)) => ctor("OMeta", vec![json!(s), opt(e.as_deref(), |s| hexv(s.as_bytes())), json!(lm)]),
+                                Some((s, e, lm)) => ctor("OMeta", vec![json!(s), etag_ref(&sc.sealed, e.as_deref()), json!(lm)]),
                             },
                         };
                         let case = tup(vec![json!(strict), json!({"raw": format!("honest_{}", sc.id)}), json!(sc.cs), hexv(key.as_bytes()), tm, ctor("OListEntry", vec![])]);
@@ -1148,7 +1263,7 @@ async fn run(out_path: String, thorough: bool, model_every: u64, chunk_sizes: Ve
         json!({"kind": "summary", "evaluations": evaluations, "tampers": tamper_count, "tamper_classes": by_class, "outcomes": outcome_counts,
                "panics": panics, "panic_samples": panic_samples, "object_sizes": sizes.iter().collect::<Vec<_>>(), "chunk_sizes": chunk_sizes,
                "plaintext_windows": plaintext_windows, "distinct_nonces": nonce_count, "seal_checks": seal_checks, "model_cases": model_cases,
-               "limits": limits, "oracle_failures": oracle_failures, "failures": failures})
+               "limits": limits, "older_version_replays_in_listing": replays, "oracle_failures": oracle_failures, "failure_counts": failures.counts, "failures": failures.list})
     )
     .unwrap();
     w.flush().unwrap();
